@@ -105,9 +105,13 @@ Distinct(s) == \A i, j \in DOMAIN s : i # j => s[i] # s[j]
 (* the harness only ever uses other names that match the rule.             *)
 (***************************************************************************)
 Ground == "g"
-BadNames == {"3x", "a-b", "x y", ""}
+\* Control and blank characters are written as tokens (<LF> = line feed, <TAB>, <SP> = a trailing space) that the
+\* harness turns into the real characters when it renders a document: a name followed by a line feed, with a line
+\* feed inside, or with trailing blank space is NOT an identifier (the rule must hold for the whole string).
+BadNames == {"3x", "a-b", "x y", "", "B1<LF>", "a<LF>b", "B1<SP>", "B1<TAB>"}
+BadRegions == {"a-b", "dsp<LF>", "3x", "r<SP>"}
 ValidName(s) == s \notin BadNames
-ValidRegion(s) == s = Ground \/ ValidName(s)     \* "_" itself is a valid identifier
+ValidRegion(s) == s = Ground \/ (ValidName(s) /\ s \notin BadRegions)     \* "_" itself is a valid identifier
 
 (***************************************************************************)
 (* Kinds.  The observable kind of a module is its four flags               *)
@@ -476,10 +480,10 @@ ModulePatches(md, i) ==
   LET hard == DHard(md)  term == DTerminal(md)  rs == md.rects.rs  ent == md.area.ent IN
   \* invalid name: the module's own name, a region of its area map, a region of one of its rectangles
   { Patch("invalid_name", "module", "name", i, b) : b \in BadNames }
-  \cup { Patch("invalid_name", "area_region", "area", i, SetEnt(md.area, j, <<"a-b", ent[j][2]>>)) :
-           j \in IF hard \/ md.area.form # "d" THEN {} ELSE DOMAIN ent }
-  \cup { Patch("invalid_name", "rect_region", "rects", i, SetRect(md.rects, j, <<rs[j][1], rs[j][2], rs[j][3], rs[j][4], "3x">>)) :
-           j \in IF hard THEN {} ELSE DOMAIN rs }
+  \cup { Patch("invalid_name", "area_region", "area", i, SetEnt(md.area, j, <<b, ent[j][2]>>)) :
+           j \in (IF hard \/ md.area.form # "d" THEN {} ELSE DOMAIN ent), b \in {"a-b", "dsp<LF>"} }
+  \cup { Patch("invalid_name", "rect_region", "rects", i, SetRect(md.rects, j, <<rs[j][1], rs[j][2], rs[j][3], rs[j][4], b>>)) :
+           j \in (IF hard THEN {} ELSE DOMAIN rs), b \in {"3x", "dsp<LF>", "r<SP>"} }
   \* unknown attribute
   \cup { Patch("unknown_attr", "module", "mextra", i, <<k>>) : k \in {"colour", "Area"} }
   \* non-positive area (soft modules: every entry, zero and negative)
@@ -601,11 +605,13 @@ ModulePool == IF lvl = "wide" THEN WideDocs ELSE DeepDocs
 W0 == <<>>
 PinWeights(k) ==
   IF lvl = "wide"
-  THEN { <<<<1, 2>>, W0>>, <<<<2, 1>>, <<5, 2>>>> }
+  THEN { <<<<1, 2>>, W0>>, <<<<2, 1>>, <<5, 2>>>>,
+         \* nets whose pins are all the same module: the reader accepts them (two list entries), so they must survive
+         <<<<1, 1>>, <<1, 4>>>>, <<<<2, 2>>, W0>> }
        \cup (IF Thorough THEN { <<<<1, 2>>, <<1, 1>>>>, <<<<2, 1>>, <<1, 2>>>>, <<<<2, 1>>, W0>>, <<<<1, 2>>, <<5, 2>>>> } ELSE {})
   ELSE { <<pl, w>> : pl \in {<<1, 2, 3>>, <<3, 1, 2>>, <<2, 3>>}, w \in {W0, <<2, 1>>} }
        \cup (IF k >= 4 THEN { <<pl, w>> : pl \in {<<1, 2, 3, 4>>, <<4, 2, 3, 1>>, <<4, 1>>, <<2, 4, 3>>}, w \in {W0, <<2, 1>>} } ELSE {})
-       \cup (IF Thorough THEN { <<<<1, 2>>, <<1, 2>>>>, <<<<2, 1>>, <<4, 1>>>> } ELSE {})
+       \cup (IF Thorough THEN { <<<<1, 2>>, <<1, 2>>>>, <<<<2, 1>>, <<4, 1>>>>, <<<<1, 2, 1>>, W0>>, <<<<3, 3, 2>>, <<2, 1>>>> } ELSE {})
 NetDocs(d) == { [pins |-> [q \in DOMAIN pw[1] |-> d.mods[pw[1][q]].name], w |-> pw[2]] : pw \in PinWeights(Len(d.mods)) }
 
 (***************************************************************************)
